@@ -4,6 +4,7 @@ import (
 	"bytes"
 	"context"
 	"fmt"
+	pgeneric "github.com/cloudwego/dynamicgo/proto/generic"
 	"reflect"
 	"unsafe"
 
@@ -46,11 +47,12 @@ type c12Shared struct {
 	httpBodyConv *j2t.BinaryConv
 	httpBodies   [][]byte
 	// protobuf converters on a shared descriptor
-	pdesc   *proto.TypeDescriptor
-	pbMsgs  [][]byte
-	pbJSONs [][]byte
-	p2jConv *p2j.BinaryConv
-	j2pConv *j2p.BinaryConv
+	pdesc       *proto.TypeDescriptor
+	pbMsgs      [][]byte
+	pbFieldNums []int
+	pbJSONs     [][]byte
+	p2jConv     *p2j.BinaryConv
+	j2pConv     *j2p.BinaryConv
 }
 
 type c12Op struct {
@@ -79,10 +81,13 @@ const (
 	opP2J
 	opJ2P
 	opHTTPBody
+	opPBLoadMarshal
+	opPBInterface
+	opPBFields
 	nC12Ops
 )
 
-var c12OpNames = [nC12Ops]string{"j2t.Do", "j2t.DoInto", "t2j.Do", "t2j.DoInto", "GetByPath", "Children", "Load+Marshal", "MarshalTo", "desc-lookups", "Interface", "t2j.Do(ConvertException)", "j2t.Do(http-mapping, empty body)", "p2j.Do", "j2p.Do", "j2t.Do(http-mapping, body with missing root fields)"}
+var c12OpNames = [nC12Ops]string{"j2t.Do", "j2t.DoInto", "t2j.Do", "t2j.DoInto", "GetByPath", "Children", "Load+Marshal", "MarshalTo", "desc-lookups", "Interface", "t2j.Do(ConvertException)", "j2t.Do(http-mapping, empty body)", "p2j.Do", "j2p.Do", "j2t.Do(http-mapping, body with missing root fields)", "pb.Load+Marshal", "pb.Interface", "pb.Fields+GetMany"}
 
 type c12Result struct {
 	Out []byte
@@ -231,6 +236,51 @@ func (s *c12Shared) exec(op *c12Op) (res c12Result) {
 		out, err := s.j2pConv.Do(ctx, s.pdesc, input(s.pbJSONs[op.Doc%len(s.pbJSONs)]))
 		res.Out = out
 		seterr(err)
+	case opPBLoadMarshal:
+		if len(s.pbMsgs) == 0 {
+			break
+		}
+		pn := pgeneric.PathNode{Node: pgeneric.NewRootValue(s.pdesc, input(s.pbMsgs[op.Doc%len(s.pbMsgs)])).Node}
+		err := pn.Load(op.Rec, &pgeneric.Options{}, s.pdesc)
+		seterr(err)
+		if err == nil {
+			out, err := pn.Marshal(&pgeneric.Options{})
+			res.Out = out
+			seterr(err)
+		}
+	case opPBInterface:
+		if len(s.pbMsgs) == 0 {
+			break
+		}
+		x, err := pgeneric.NewRootValue(s.pdesc, input(s.pbMsgs[op.Doc%len(s.pbMsgs)])).Interface(&pgeneric.Options{MapStructById: op.Rec})
+		seterr(err)
+		if err == nil {
+			res.Out = []byte(canonIface(x))
+		}
+	case opPBFields:
+		if len(s.pbMsgs) == 0 {
+			break
+		}
+		v := pgeneric.NewRootValue(s.pdesc, input(s.pbMsgs[op.Doc%len(s.pbMsgs)]))
+		ids := make([]pgeneric.PathNode, len(s.pbFieldNums))
+		ps := make([]pgeneric.PathNode, len(s.pbFieldNums))
+		for i, n := range s.pbFieldNums {
+			ids[i].Path = pgeneric.NewPathFieldId(proto.FieldNumber(n))
+			ps[i].Path = pgeneric.NewPathFieldId(proto.FieldNumber(n))
+		}
+		err := v.Fields(ids, &pgeneric.Options{})
+		seterr(err)
+		if err == nil {
+			err = v.GetMany(ps, &pgeneric.Options{})
+			seterr(err)
+		}
+		if err == nil {
+			for i := range ids {
+				res.Out = append(res.Out, byte(ids[i].Node.Type()))
+				res.Out = append(res.Out, ids[i].Node.Raw()...)
+				res.Out = append(res.Out, ps[i].Node.Raw()...)
+			}
+		}
 	case opInterface:
 		n := generic.NewNode(thrift.Type(s.rootT.Kind), input(s.msgs[op.Doc]))
 		x, err := n.Interface(s.gopts)
@@ -535,6 +585,9 @@ func runC12(w *W) {
 	if t.Chance(2, 3, "c12.proto") {
 		psch := genPSchema(t, pgenOpts{MaxMsgs: 1 + t.Intn(3, "psch.msgs"), MaxFields: 1 + t.Intn(6, "psch.fields"), Enums: t.Chance(1, 2, "psch.enums"), NoPackedFixed: true})
 		sh.pdesc = parseProto(w, psch)
+		for _, f := range psch.Root().Fields {
+			sh.pbFieldNums = append(sh.pbFieldNums, f.Num)
+		}
 		pc := p2j.NewBinaryConv(conv.Options{})
 		jc := j2p.NewBinaryConv(conv.Options{})
 		sh.p2jConv, sh.j2pConv = &pc, &jc
@@ -693,7 +746,7 @@ func drawC12Op(w *W, sh *c12Shared) *c12Op {
 		in = sh.jsons[op.Doc]
 	case opHTTPBody:
 		in = sh.httpBodies[op.Doc]
-	case opP2J:
+	case opP2J, opPBLoadMarshal, opPBInterface, opPBFields:
 		if len(sh.pbMsgs) > 0 {
 			in = sh.pbMsgs[op.Doc%len(sh.pbMsgs)]
 		}
